@@ -605,6 +605,11 @@ func doParse(req *Req) (resp Resp) {
 		return
 	}
 	resp.Kind = "ok"
+	// cross-check (C05): a text the parser accepts must at least tokenise to its very end
+	if tr := doTokens(req); tr.Kind == "error" && tr.Err != nil {
+		resp.LexFailed = true
+		resp.LexMsg = fmt.Sprintf("code %d at position %d: %s", tr.Err.Code, tr.Err.Cursor, tr.Err.Msg)
+	}
 	resp.Dump = dumpProgram(prog)
 	return
 }
